@@ -1,0 +1,95 @@
+//go:build verif
+
+package opcua
+
+import (
+	"sync/atomic"
+	"time"
+
+	"github.com/gopcua/opcua/ua"
+	"github.com/gopcua/opcua/uacp"
+)
+
+// VerifHook, when set, is called at the named points of the client (only in
+// builds with -tags verif). The hook may block: it doubles as a scheduler gate.
+var VerifHook atomic.Value // func(point string, c *Client, kv ...any)
+
+func verifPoint(point string, c *Client, kv ...any) {
+	if h, ok := VerifHook.Load().(func(string, *Client, ...any)); ok && h != nil {
+		h(point, c, kv...)
+	}
+}
+
+// VerifConfigSnapshot is a deep copy of the scalar parts of a client's effective configuration.
+type VerifConfigSnapshot struct {
+	DialTimeout       time.Duration
+	ClientACK         uacp.Acknowledge
+	ClientACKPtr      uintptr // identity of the Acknowledge object (aliasing check)
+	SecurityPolicyURI string
+	SecurityMode      ua.MessageSecurityMode
+	Lifetime          uint32
+	RequestTimeout    time.Duration
+	AutoReconnect     bool
+	ReconnectInterval time.Duration
+	CertLen           int
+	HasKey            bool
+	SessionTimeout    time.Duration
+	SessionName       string
+	LocaleIDs         []string
+	AuthPolicyURI     string
+	ApplicationURI    string
+	ProductURI        string
+}
+
+// VerifConfig returns a snapshot of the effective configuration of c.
+func VerifConfig(c *Client) VerifConfigSnapshot { return verifSnapshot(c.cfg) }
+
+// VerifSubscriptionState returns the ids of the registered subscriptions and the pending acks.
+func VerifSubscriptionState(c *Client) (subs []uint32, acks [][2]uint32, pausech, resumech int) {
+	c.subMux.RLock()
+	defer c.subMux.RUnlock()
+	for id := range c.subs {
+		subs = append(subs, id)
+	}
+	for _, a := range c.pendingAcks {
+		acks = append(acks, [2]uint32{a.SubscriptionID, a.SequenceNumber})
+	}
+	return subs, acks, len(c.pausech), len(c.resumech)
+}
+
+func verifSnapshot(cfg *Config) VerifConfigSnapshot {
+	var s VerifConfigSnapshot
+	if cfg == nil {
+		return s
+	}
+	if d := cfg.dialer; d != nil {
+		if d.Dialer != nil {
+			s.DialTimeout = d.Dialer.Timeout
+		}
+		if d.ClientACK != nil {
+			s.ClientACK = *d.ClientACK
+			s.ClientACKPtr = verifPtr(d.ClientACK)
+		}
+	}
+	if sc := cfg.sechan; sc != nil {
+		s.SecurityPolicyURI = sc.SecurityPolicyURI
+		s.SecurityMode = sc.SecurityMode
+		s.Lifetime = sc.Lifetime
+		s.RequestTimeout = sc.RequestTimeout
+		s.AutoReconnect = sc.AutoReconnect
+		s.ReconnectInterval = sc.ReconnectInterval
+		s.CertLen = len(sc.Certificate)
+		s.HasKey = sc.LocalKey != nil
+	}
+	if ss := cfg.session; ss != nil {
+		s.SessionTimeout = ss.SessionTimeout
+		s.SessionName = ss.SessionName
+		s.LocaleIDs = append([]string(nil), ss.LocaleIDs...)
+		s.AuthPolicyURI = ss.AuthPolicyURI
+		if cd := ss.ClientDescription; cd != nil {
+			s.ApplicationURI = cd.ApplicationURI
+			s.ProductURI = cd.ProductURI
+		}
+	}
+	return s
+}
